@@ -86,6 +86,71 @@ def jobs(prop, tier):
                    models=['string', 'libc', 'sstream', 'posix', 'containers'], solver=PORTFOLIO)
         J.append(Job('C15', 'key', 'C15_key.cpp', defs={'IDMAX': 4, 'ENV_NOLOG': None}, unwind=7, shape='K', timeout=900 if T else 250,
                      bounds='two registrations with arbitrary source (any/master), destination, PB, SB, ID length 0..4 and ID bytes', **BUS))
+    if prop == 'C18':
+        M = ['string', 'libc', 'sstream', 'posix']
+        for l in ((2, 3, 4, 5, 6) if T else (2, 3, 4)):
+            J.append(Job('C18', 'split%d' % l, 'C18_request.cpp', defs={'H_SPLIT': None, 'L': l}, unwind=l + 3, shape='K', models=M,
+                         solver=PORTFOLIO, timeout=1500 if T else 250,
+                         bounds='all command lines of exactly %d characters over {a,b,blank,\",\'}' % l))
+        for l in ((3, 4, 5, 6) if T else (3, 4)):
+            J.append(Job('C18', 'http%d' % l, 'C18_request.cpp', defs={'H_HTTP': None, 'L': l}, unwind=l + 18, shape='K', models=M,
+                         solver=PORTFOLIO, timeout=1500 if T else 250,
+                         bounds='all URIs of exactly %d characters over {%%,2,5,4,1,e,/,.,a} with well-formed escapes' % l))
+    if prop in ('C05', 'C06', 'C10'):
+        names = None
+        if prop == 'C10':
+            names = ['BI0_1', 'BI0_7', 'BI3_2', 'BI3_5', 'BI7', 'UCH', 'SIR', 'BCD2']
+        J += rawtype_jobs(prop, T, names=names, solver='cadical', timeout=1500 if T else 280)
+    if prop == 'C14':
+        DEV = dict(link=['lib/ebus/device_trans.cpp', 'lib/ebus/symbol.cpp', 'lib/ebus/result.cpp'],
+                   models=['string', 'libc', 'sstream_null', 'posix', 'containers', 'libm'], solver=PORTFOLIO,
+                   noop_stubs=['_ZN5ebusd14EnhancedDevice19notifyInfoRetrievedEv'])
+        J.append(Job('C14', 'encode', 'C14_enhanced.cpp', defs={'H_ENCODE': None}, unwind=10, shape='K', timeout=600 if T else 250,
+                     bounds='all 256 symbols x {send, start arbitration, info request}', **DEV))
+        J.append(Job('C14', 'frame', 'C14_enhanced.cpp', defs={'H_FRAME': None}, unwind=10, unwindset={'cstrlen': 34, 'put_field': 34, 'vs_copy': 34, 'basic_ostringstreamIcSt11char_traitsIcESaIcEE3strEv': 34}, shape='K', timeout=900 if T else 250,
+                     bounds='every well-formed unit (plain byte or two-byte frame of any command/data) from every arbitration state', **DEV))
+        for l in ((2, 3) if T else (2,)):
+            J.append(Job('C14', 'chunk%d' % l, 'C14_enhanced.cpp', defs={'H_CHUNK': None, 'L': l}, unwind=l + 2, unwindset={'cstrlen': 34, 'put_field': 34, 'vs_copy': 34, 'basic_ostringstreamIcSt11char_traitsIcESaIcEE3strEv': 34}, shape='R', timeout=3000 if T else 280,
+                         bounds='every stream of %d arbitrary bytes, every split position, every initial arbitration state' % l, **DEV))
+    if prop == 'C16':
+        pairs = [(1, 1), (1, 3), (2, 2), (2, 3), (2, 5), (1, 4), (3, 3)] if not T else [(a, b) for a in (1, 2, 3) for b in range(1, 8) if b >= a]
+        for (la, lb) in pairs:
+            J.append(Job('C16', 'level_%d_%d' % (la, lb), 'C16_level.cpp', defs={'LA': la, 'LB': lb}, unwind=lb + 3, shape='K',
+                         link=['lib/ebus/message.cpp'], models=['string', 'libc', 'sstream', 'posix', 'containers', 'libm'],
+                         skip_ctors=['message', 'datatype'], solver=PORTFOLIO, timeout=900 if T else 250,
+                         bounds='all level names of length %d over {a,b} x all level lists of length %d over {a,b,;,*}' % (la, lb)))
+    if prop == 'C13':
+        combos = [(1, 'a'), (2, 'ab'), (2, 'ba'), (3, 'abc'), (3, 'cab')] if not T else [(1, 'a'), (1, 'c'), (2, 'ab'), (2, 'ba'), (2, 'ac'), (3, 'abc'), (3, 'cab'), (3, 'bca'), (3, 'acb')]
+        for (nf, names) in combos:
+            J.append(Job('C13', 'hasfield_%s' % names, 'C13_hasfield.cpp', defs={'NF': nf, 'NAMES': '"%s"' % names}, unwind=8, shape='K',
+                         link=['lib/ebus/data.cpp', 'lib/ebus/datatype.cpp', 'lib/ebus/symbol.cpp', 'lib/ebus/result.cpp', 'lib/ebus/filereader.cpp', 'lib/ebus/contrib/contrib.cpp', 'lib/ebus/contrib/tem.cpp'],
+                         models=['string', 'libc', 'sstream', 'posix', 'containers', 'libm'],
+                         skip_ctors=['data.cpp', 'datatype', 'contrib', 'tem', 'filereader'], rtti=True, noop_containing=['_ZNSt8_Rb_tree+8_M_eraseEPSt13_Rb_tree_node'], solver=PORTFOLIO, timeout=900 if T else 250,
+                         bounds='%d fields named %s, every numeric/string kind assignment, every query (unnamed, a, b, c) x kind' % (nf, ','.join(names))))
+    if prop == 'C20':
+        # C20 = conjunction of the built-in safety obligations (bounds, pointer validity, freed objects, shifts, signed overflow,
+        # division by zero, uncaught-throw model, unwinding assertions = bounded work) over kernels whose inputs are arbitrary buffers
+        DEVN = dict(link=['lib/ebus/device_trans.cpp', 'lib/ebus/symbol.cpp', 'lib/ebus/result.cpp'],
+                    models=['string', 'libc', 'sstream_null', 'posix', 'containers', 'libm'], solver=PORTFOLIO)
+        nf = 3 if T else 2
+        J.append(Job('C20', 'enh_info', 'C14_enhanced.cpp', defs={'H_INFO': None, 'L': nf}, unwind=20, shape='S', timeout=1500 if T else 280,
+                     unwindset={'cstrlen': 34, 'put_field': 34, 'vs_copy': 34}, bounds='arbitrary info-transfer state (length/position 0..18, buffer) x %d arbitrary INFO frames, real notifyInfoRetrieved' % nf, **DEVN))
+        def adopt(src, pick, prefix=''):
+            for j in jobs(src, tier):
+                if pick(j.name):
+                    j.prop = 'C20'
+                    j.name = prefix + j.name
+                    j.dir = __import__('os').path.join(__import__('vplib.pipeline', fromlist=['BUILD']).BUILD, 'C20', j.name)
+                    J.append(j)
+        adopt('C14', lambda n: n in ('frame', 'chunk2'), 'enh_')
+        adopt('C11', lambda n: n.startswith('hex'))
+        adopt('C05', lambda n: T or n in ('raw_UCH', 'raw_BCD2', 'raw_SLG', 'raw_BI3_2', 'raw_S3N'))
+        adopt('C07', lambda n: T or n in ('parse_UCH', 'parse_FLT', 'parse_ULG', 'parse_SLG'))
+        adopt('C15', lambda n: True)
+    if prop == 'C07':
+        J += numtype_jobs('C07', 'C07_parse.cpp', T, {}, 'parse_', solver='cadical', timeout=900 if T else 250)
+    if prop == 'C12':
+        J += numtype_jobs('C12', 'C07_parse.cpp', T, {'H_ERRNO': None}, 'errno_', names=['UCH', 'SIN', 'FLT', 'ULG'], solver='cadical', timeout=900 if T else 250)
     return J
 
 COMMON_ASSUME = ['clang-14 -O1 lowering + ll2c translation (validated per run against the native build on witness and random tapes)',
@@ -94,6 +159,12 @@ BUS_NOTE = ('Trusted: clang-14 lowering, ll2c, models (string, sstream, posix, c
             '(every read result = timeout | error | chunk of 1..2 arbitrary bytes), clock = arbitrary non-decreasing instants, logging off. '
             'DirectProtocolHandler::run() itself (thread start, 5 s reopen wait) is not encoded; its loop body is re-stated in env_bus.h Stepper.')
 META = {
+ 'C20': dict(
+   level_text='Bounded model checking of memory safety and bounded work on the kernels that consume untrusted bytes: adapter frames incl. arbitrary INFO transfers into the 17-byte info buffer (real notifyInfoRetrieved), chunked adapter streams, escaped hex parsing, numeric field decode/encode at arbitrary offsets, numeric text parsing for every libc outcome, answer-key construction. Obligations are CBMC built-in checks (array bounds, pointer validity incl. freed objects, division by zero, signed overflow, uncaught-exception model, unwinding assertions) plus shift/conversion checks confirmed by native UBSan replay.',
+   level_note='Covers only the listed kernels. NOT covered (beyond this encoding, see DESIGN section 8): the protocol handler state machine on arbitrary bus traffic, client command lines and HTTP requests through MainLoop, CSV/definition loaders, leak freedom of request objects. Those interfaces are fuzzing territory; no claim is made for them.',
+   outside_claim='DirectProtocolHandler on arbitrary traffic, MainLoop command interpreter, CSV loaders, request-object lifetime, FileTransport',
+   assumptions=COMMON_ASSUME,
+ ),
  'C13': dict(
    level_text='Bounded model checking of the real field lookup used when a condition is resolved (DataFieldSet::hasField / SingleDataField::hasField): for every assignment of numeric/string kinds to up to 3 named fields and every query (unnamed or named, numeric or string) the answer is true iff a field of that name and kind exists.',
    level_note='Only the resolution predicate is decided. Outside: the value-history clause (SimpleCondition::isTrue over storeLastData updates and clock readings), range parsing, combined conditions, SimpleCondition::resolve message lookup by name -- these sit on Message/MessageMap objects (std::map of strings) that this encoding does not reach within the cap.',
